@@ -5,7 +5,7 @@ Never commits anything in /repo.  usage: mutation_matrix.py [<id>...]"""
 import json, os, re, subprocess, sys, time
 
 ROOT = "/verif"
-EXTRA = {"C16-a": ["C09"], "C17-a": ["C03"], "C01-b": ["C10"], "C17-b": ["C15"], "C06-b": ["C08"], "C06-c": ["C16"], "C10-c": ["C01"], "C02-c": ["C01"]}
+EXTRA = {"C16-a": ["C09"], "C17-a": ["C03"], "C01-b": ["C10"], "C17-b": ["C15"], "C06-b": ["C08"], "C06-c": ["C16"], "C10-c": ["C01"], "C02-c": ["C01"], "C13-d": ["C01"], "C16-d": ["C02"], "C02-d": ["C01"]}
 
 
 def sh(cmd, **kw):
@@ -37,7 +37,7 @@ def main():
             try:
                 for p in [prop] + EXTRA.get(mid, []):
                     t0 = time.time()
-                    r = sh(f"cd {ROOT} && python3 check.py {p}")
+                    r = sh(f"cd {ROOT} && VERIF_EVIDENCE_DIR={ROOT}/work/evidence_mut python3 check.py {p}")
                     viol = [l for l in r.stdout.splitlines() if l.startswith("VIOLATION")]
                     classes = sorted(set(re.findall(r"class=(\S+)", r.stderr)))
                     results[p] = {"command": f"python3 check.py {p}", "exit": r.returncode, "seconds": round(time.time() - t0, 1),
